@@ -134,6 +134,17 @@ Definition parse_layout (b : bytes) : option layout :=
 Definition canonical_tail (b : bytes) (l : layout) : bool :=
   (ly_index_offset l =? 48) && (ly_table_size l =? N.of_nat (length b - 48)).
 
+(* The fields IndexFromReader does not look at, as a casync-conforming writer sets them:
+   index element size 48, tail index offset 48, tail table size = file length - 48. *)
+Definition canonical (b : bytes) : Prop :=
+  word_at b 0 = 48 /\
+  word_at b (length b - 24) = 48 /\
+  word_at b (length b - 16) = N.of_nat (length b - 48).
+
+(* offset before row j of a table: 0 for the first row *)
+Definition prev_offset (j : nat) (items : list titem) : N :=
+  match j with O => 0 | S j' => fst (nth j' items (0, [])) end.
+
 (* ---------- what WriteTo expects of an Index ---------- *)
 
 Fixpoint starts_from (start : N) (cs : list chunk) : Prop :=
